@@ -9,6 +9,15 @@ pub(crate) mod engine;
 #[path = "/verif/harness/sequencer/tlevel.rs"]
 mod tlevel;
 
+#[path = "/verif/harness/sequencer/voteext.rs"]
+mod voteext;
+
+#[path = "/verif/harness/sequencer/blevel.rs"]
+mod blevel;
+
+#[path = "/verif/harness/sequencer/proposals.rs"]
+mod proposals;
+
 use std::{
     collections::{
         BTreeMap,
